@@ -115,7 +115,7 @@ def readNat (l : List Char) : Option Nat :=
 /-- `[-]d+` -/
 def readInt : List Char → Option Int
   | [] => none
-  | c :: t => if c = '-' then (readNat t).map (fun n => -(n : Int)) else (readNat (c :: t)).map Int.ofNat
+  | c :: t => if c = '-' then (readNat t).map (fun (n : Nat) => -(n : Int)) else (readNat (c :: t)).map Int.ofNat
 
 /-- `r[i]` for the register letter `r` -/
 def readIndexed (reg : Char) (l : List Char) : Option Int :=
